@@ -1,17 +1,88 @@
 /-
   C05 — Authorization: owners cancel, executors operate, approvers approve; no one else.
 -/
-import AtsProofs.Basic
+import AtsProofs.Steps2
 namespace Ats.Proofs
 open Ats Ats.Spec
 
-/-- every accepted request was sent by an account entitled to it, in every state -/
+theorem modifyContract_auth {env : Env} {s s' : State} {sender : String} {funds : List Coin}
+    {ap ex : Option (List String)} {ar aa br ba : Option String} {at_ bt : Option (List String)}
+    {r : Response}
+    (h : modifyContract env s sender funds ap ex ar aa br ba at_ bt = .ok (s', r)) :
+    memS sender s.info.executors = true := by
+  unfold modifyContract at h
+  simp only [Res.bind_eq_ok, guardR_eq_ok] at h
+  obtain ⟨_, hx, _⟩ := h
+  exact hx
+
+/-- every accepted request was sent by an account entitled to it — in every state, with no
+    invariant assumed: cancel ⇒ the stored owner; match / expire / reject / modify ⇒ a configured
+    executor; approve ⇒ a configured approver -/
 theorem C05_auth (env : Env) (s s' : State) (c : Call) (r : Response)
     (h : execute env s c = .ok (s', r)) : authorized s c.sender c.msg = true := by
   unfold execute at h
   simp only [Res.bind_eq_ok, guardR_eq_ok] at h
   obtain ⟨_, _, h⟩ := h
   cases hm : c.msg <;> simp only [hm] at h <;> simp only [authorized]
-  all_goals sorry
+  case cancelAsk id =>
+    obtain ⟨a, _, ha, hown, _⟩ := cancelAsk_ok h
+    simp [ha, hown]
+  case cancelBid id =>
+    obtain ⟨b, _, _, _, _, _, hb, hauth, _⟩ := reverseBid_ok h
+    simp at hauth
+    simp [hb, hauth]
+  case approveAsk id base size =>
+    obtain ⟨a, hap, _⟩ := approveAsk_ok h
+    exact hap
+  case executeMatch a b p sz =>
+    obtain ⟨_, _, _, _, _, _, _, _, _, _, _, _, hex, _⟩ := executeMatch_ok h
+    exact hex
+  case expireAsk id =>
+    obtain ⟨a, _, hex, _⟩ := reverseAsk_ok h
+    exact hex
+  case rejectAsk id sz =>
+    obtain ⟨a, _, hex, _⟩ := reverseAsk_ok h
+    exact hex
+  case expireBid id =>
+    obtain ⟨b, _, _, _, _, _, hb, hauth, _⟩ := reverseBid_ok h
+    simpa using hauth
+  case rejectBid id sz =>
+    obtain ⟨b, _, _, _, _, _, hb, hauth, _⟩ := reverseBid_ok h
+    simpa using hauth
+  case modify => exact modifyContract_auth h
+  all_goals rfl
+
+/-- a request from a sender who is not entitled to it is refused (contrapositive of
+    `C05_auth`); refused requests leave the state unchanged by construction of `run` -/
+theorem C05_refused (env : Env) (s : State) (c : Call)
+    (h : authorized s c.sender c.msg = false) : ∃ e, execute env s c = .err e := by
+  cases hx : execute env s c with
+  | err e => exact ⟨e, rfl⟩
+  | ok p =>
+    have := C05_auth env s p.1 c p.2 (by rw [hx])
+    rw [h] at this; cases this
+
+/-- holding one role never confers another: an executor who is not the owner cannot cancel -/
+theorem C05_executor_cannot_cancel (env : Env) (s : State) (sender id : String) (funds : List Coin) (a : Ask)
+    (ha : s.asks.get? id = some a) (hne : a.owner ≠ sender) :
+    ∃ e, execute env s ⟨sender, funds, .cancelAsk id⟩ = .err e := by
+  apply C05_refused
+  simp [authorized, ha, hne]
+
+/-- an owner who is not an executor cannot expire or reject their own order -/
+theorem C05_owner_cannot_expire (env : Env) (s : State) (sender id : String) (funds : List Coin)
+    (sz : Option Nat) (hne : memS sender s.info.executors = false) :
+    (∃ e, execute env s ⟨sender, funds, .expireAsk id⟩ = .err e) ∧
+    (∃ e, execute env s ⟨sender, funds, .rejectAsk id sz⟩ = .err e) ∧
+    (∃ e, execute env s ⟨sender, funds, .expireBid id⟩ = .err e) ∧
+    (∃ e, execute env s ⟨sender, funds, .rejectBid id sz⟩ = .err e) := by
+  refine ⟨?_, ?_, ?_, ?_⟩ <;> apply C05_refused <;> simp [authorized, hne]
+
+/-- an approver who is not an executor cannot match or change the configuration -/
+theorem C05_approver_cannot_match (env : Env) (s : State) (sender a b p : String) (sz : Nat)
+    (funds : List Coin) (hne : memS sender s.info.executors = false) :
+    ∃ e, execute env s ⟨sender, funds, .executeMatch a b p sz⟩ = .err e := by
+  apply C05_refused
+  simp [authorized, hne]
 
 end Ats.Proofs
